@@ -261,6 +261,34 @@ theorem C19_finish_eq_search (g : G D) (thl thr : Seq → Option Nat)
   | L => exact key thl hl
   | R => exact key thr hr
 
+/-- **C19 (no panic).** `index` maps the index panic of `self.keys[pos]` to "absent"; this theorem closes that gap: when the
+    hash function's ranks stay below the number of nodes for *every* k-mer (what `Mphf::try_hash` returns is the rank of a set
+    bit among the keys' bits), no lookup in the maps `finish` builds panics - so `C19_finish_eq_search` speaks about the
+    answers the real `get` gives, for present and absent k-mers. -/
+theorem C19_finish_no_panic (g : G D) (thl thr : Seq → Option Nat)
+    (hl : MPH thl (endKeys g .L)) (hr : MPH thr (endKeys g .R))
+    (rl : ∀ k pos, thl k = some pos → pos < g.nodes.length) (rr : ∀ k pos, thr k = some pos → pos < g.nodes.length) :
+    ∃ bl br, Map.create thl (endKeys g .L) (List.range g.nodes.length) = some bl ∧
+             Map.create thr (endKeys g .R) (List.range g.nodes.length) = some br ∧
+             ∀ km, (bl.get km).isSome ∧ (br.get km).isSome := by
+  obtain ⟨bl, a1, a2, _, a4, a5⟩ := create_spec thl (endKeys g .L) (List.range g.nodes.length) (by simp [endKeys]) hl
+  obtain ⟨br, b1, b2, _, b4, b5⟩ := create_spec thr (endKeys g .R) (List.range g.nodes.length) (by simp [endKeys]) hr
+  have len : ∀ (b : Map) (side : Dir), (b.keys.zip b.vals).Perm ((endKeys g side).zip (List.range g.nodes.length)) →
+      b.keys.length = b.vals.length → b.keys.length = g.nodes.length := by
+    intro b side hp he
+    have := hp.length_eq
+    simp only [List.length_zip, endKeys, List.length_map, List.length_range] at this
+    omega
+  refine ⟨bl, br, a1, b1, fun km => ⟨?_, ?_⟩⟩
+  · apply get_no_panic bl _ a5
+    intro k pos h
+    rw [a2] at h
+    rw [len bl .L a4 a5]; exact rl k pos h
+  · apply get_no_panic br _ b5
+    intro k pos h
+    rw [b2] at h
+    rw [len br .R b4 b5]; exact rr k pos h
+
 /-- non-vacuity of `C19_finish_exact`: three nodes, a hash that sends their first k-mers to slots 2, 0, 1 and every
     other k-mer to slot 1; `create_map` runs to completion and puts the pairs where the hash says -/
 example :
